@@ -28,13 +28,13 @@ MODES = ["random", "iupac", "short", "own", "other", "mutant", "lower", "extra-s
 
 def cases(tier, seed):
     out = []
-    per = 80 if tier == "quick" else 3000
+    per = 80 if tier == "quick" else 10000
     for c in gen.concrete_kit_classes():
         out.append({"kind": "kit", "cls": gen.class_name(c), "seed": seed, "count": per})
         out.append({"kind": "corruptions", "cls": gen.class_name(c), "seed": seed, "all": tier == "thorough"})
     for e in gen.enzyme_names():
         out.append({"kind": "generic", "enzyme": e, "seed": seed, "count": per})
-    for j in range(0, 600 if tier == "quick" else 30000, 20):
+    for j in range(0, 600 if tier == "quick" else 120000, 20):
         out.append({"kind": "assemblies", "from": j, "count": 20, "seed": seed})
     return out
 
